@@ -250,7 +250,18 @@ def vidya_oracle(n, x0, xs):
         res = []
         prev = x0
         w = case.stride
+        # the documented incremental update of the two running sums, replayed in binary64 (same operations, same order):
+        # when IT says both sums are exactly zero there is no residue, and the output must be the input itself
+        r_up = r_dn = 0.0
+        r_last = x0
+        r_win = [0.0] * max(n, 1)
         for t in range(len(outs) // w):
+            ch = xs[t] - r_last
+            r_last = xs[t]
+            lft = r_win.pop(0)
+            r_win.append(ch)
+            r_up = (r_up - lft * (1.0 if lft > 0 else 0.0)) + ch * (1.0 if ch > 0 else 0.0)
+            r_dn = (r_dn + lft * (1.0 if lft < 0 else 0.0)) - ch * (1.0 if ch < 0 else 0.0)
             y = bits2f(outs[t * w])
             up, dn = bits2f(so[2 * t]), bits2f(so[2 * t + 1])
             x = xs[t]
@@ -272,7 +283,11 @@ def vidya_oracle(n, x0, xs):
                 a, b = x * klo + (1 - klo) * prev, x * khi + (1 - khi) * prev
                 exp_lo, exp_hi = min(a, b), max(a, b)
             if up == 0 and dn == 0 and not (exp_lo - A <= y <= exp_hi + A):
-                res.append("step %d: the last %d changes are all exactly zero, so the documented recurrence returns the input %r, but the output is %r (residue left in the running sums)" % (t, n, x, y))
+                if r_up == 0.0 and r_dn == 0.0:
+                    res.append("step %d: the last %d changes are all exactly zero and so are the running sums of the documented update (no residue), "
+                               "so the output must be the input %r, but it is %r" % (t, n, x, y))
+                else:
+                    res.append("step %d: the last %d changes are all exactly zero, so the documented recurrence returns the input %r, but the output is %r (residue left in the running sums)" % (t, n, x, y))
                 break
             if not (exp_lo - A <= y <= exp_hi + A):
                 res.append("step %d: output %r is outside the image [%r, %r] of the documented Vidya step from the previous output %r" % (t, y, exp_lo, exp_hi, prev))
@@ -430,6 +445,24 @@ def gen_other(rng, tier, names):
                     ws[0] += 3.0
             x0, xs, regime = gens.stream(r, min(steps, 2 * k + 20))
             cases.append(conv_case(ws, x0, xs, "stream", {"regime": regime}))
+        # kernels with exact zeros at either end and inside, and with negative taps (lagged / differencing kernels)
+        for ws in ([1.0, 0.0], [0.0, 1.0], [0.0, 0.0, 2.0], [2.0, 0.0, 0.0], [1.0, 0.0, 3.0, 0.0], [0.0, 1.0, 0.0],
+                   [-1.0, 0.0, 1.0, 2.0, 4.0], [4.0, 2.0, 1.0, 0.0, -1.0], [-1.0, 3.0], [3.0, -1.0], [-2.0, -1.0, 0.0]):
+            for regime in ("walk", "monotone"):
+                x0, xs, regime = gens.stream(r, 30, regime=regime)
+                xs = [x + 50.0 for x in xs]
+                cases.append(conv_case(ws, x0 + 50.0, xs, "stream-zero-negative-taps", {"regime": regime}))
+        for _ in range(nr):
+            k = r.range(2, 12)
+            ws = [float(r.range(-4, 6)) for _ in range(k)]
+            if r.chance(0.5):
+                ws[-1] = 0.0
+            if r.chance(0.3):
+                ws[0] = 0.0
+            if abs(sum(ws)) < 1:
+                ws[k // 2] += 7.0
+            x0, xs, regime = gens.stream(r, 3 * k + 10)
+            cases.append(conv_case(ws, x0, xs, "stream-zero-negative-taps", {"regime": regime}))
         cases.append(conv_case([], 1.0, [2.0], "ctor-boundary"))
         cases.append(conv_case([1.0] * 255, 1.0, [2.0], "ctor-boundary"))
     if "TSI" in names:
